@@ -168,6 +168,12 @@ fn parse_grid_columns<'a, 'b: 'a, R: Read>(
                             meta: Some(dict),
                         });
 
+                        if parser.lexer.is_char(b'\n') {
+                            // Meta on the last column
+                            done = true;
+                            break;
+                        }
+
                         if !parser.lexer.is_eof() {
                             parser.lexer.expect_char(b',', "Grid columns")?;
                         } else {
